@@ -36,11 +36,13 @@ const (
 	shMapOfArray  = "mapOfArray"  // map<string,[]string>
 	shMapOfObject = "mapOfObject" // map<string,object{a:string}>
 	shObjWithArr  = "objWithArr"  // object{a: array<string>}
+	shObjWithMap  = "objWithMap"  // object{a: map<string,string>}
+	shObjWithObj  = "objWithObj"  // object{a: object{b:string}}
 	shArrOfArr    = "arrOfArr"    // array<array<string>>
 	shArrOfObj    = "arrOfObj"    // array<object{a:string}>
 )
 
-var allShapes = []string{shPrim, shArray, shObject, shMap, shMapOfArray, shMapOfObject, shObjWithArr, shArrOfArr, shArrOfObj}
+var allShapes = []string{shPrim, shArray, shObject, shMap, shMapOfArray, shMapOfObject, shObjWithArr, shObjWithMap, shObjWithObj, shArrOfArr, shArrOfObj}
 
 var shapeSchema = map[string]string{
 	shPrim:        `{"type":"string"}`,
@@ -50,6 +52,8 @@ var shapeSchema = map[string]string{
 	shMapOfArray:  `{"type":"object","additionalProperties":{"type":"array","items":{"type":"string"}}}`,
 	shMapOfObject: `{"type":"object","additionalProperties":{"type":"object","properties":{"a":{"type":"string"}}}}`,
 	shObjWithArr:  `{"type":"object","properties":{"a":{"type":"array","items":{"type":"string"}}}}`,
+	shObjWithMap:  `{"type":"object","properties":{"a":{"type":"object","additionalProperties":{"type":"string"}}}}`,
+	shObjWithObj:  `{"type":"object","properties":{"a":{"type":"object","properties":{"b":{"type":"string"}}}}}`,
 	shArrOfArr:    `{"type":"array","items":{"type":"array","items":{"type":"string"}}}`,
 	shArrOfObj:    `{"type":"array","items":{"type":"object","properties":{"a":{"type":"string"}}}}`,
 }
